@@ -104,6 +104,7 @@ fn mk_sh(decl: bool) -> DSh { DSh { b: BTable { decl: if decl { Some(BReg { disa
 #[kani::proof]
 #[kani::unwind(10)]
 fn vk_c10_simple_command_items_in_order() {
+    unsafe { STDERR_LINES = 0; }
     let mut pre = std::vec::Vec::with_capacity(2); pre.push(CommandPrefixOrSuffixItem::AssignmentWord(0, 10)); pre.push(CommandPrefixOrSuffixItem::IoRedirect(0));
     let mut suf = std::vec::Vec::with_capacity(3); suf.push(CommandPrefixOrSuffixItem::IoRedirect(1)); suf.push(CommandPrefixOrSuffixItem::AssignmentWord(1, 11)); suf.push(CommandPrefixOrSuffixItem::Word(2));
     let sc = SC { prefix: Some(ItemList(pre)), word_or_name: Some(1), suffix: Some(ItemList(suf)) };
@@ -143,6 +144,7 @@ fn vk_c10_simple_command_items_in_order() {
 #[kani::proof]
 #[kani::unwind(10)]
 fn vk_c09_assignment_only_statement() {
+    unsafe { STDERR_LINES = 0; }
     let mut pre = std::vec::Vec::with_capacity(3); pre.push(CommandPrefixOrSuffixItem::AssignmentWord(0, 10)); pre.push(CommandPrefixOrSuffixItem::IoRedirect(0)); pre.push(CommandPrefixOrSuffixItem::AssignmentWord(1, 11));
     let sc = SC { prefix: Some(ItemList(pre)), word_or_name: None, suffix: None };
     let mut sh = mk_sh(false);
